@@ -10,13 +10,14 @@ DECLARED_MEAN = ["Fracture Intensity P21", "Connections per Branch", "Trace Mean
 UNDECLARED = ["radius", "Censoring", "Relative Censoring", "powerlaw alpha", "my column", "trace_cut_off"]
 
 
-def s20_group(ctx):
+def s20_group(ctx, drv=None, name="S20-group"):
     import_fractopo()
     from fractopo.analysis.subsampling import group_gathered_subsamples
 
-    res = StreamResult("S20-group", rule="description lists with 1..5 names in every kind of order: k x s interleaving as produced by "
+    drv = drv or ctx.driver
+    res = StreamResult(name, rule=("REGENERATED loop (Lean, compiled into gen_c20) instead of the hand model: " if name != "S20-group" else "") + "description lists with 1..5 names in every kind of order: k x s interleaving as produced by "
                        "subsample_networks, sorted, random shuffles, single; non-trivial = some name occurs in two non-adjacent positions")
-    rng = rng_for(ctx.seed, "S20g")
+    rng = rng_for(ctx.seed, "S20g" + name)
     cases = [["a", "b", "a", "b"], ["a"], ["a", "a"], ["x", "y", "z"] * 3]
     for _ in range(budget(ctx.tier, 300, 8000)):
         k, s = rng.randint(1, 5), rng.randint(1, 6)
@@ -24,7 +25,7 @@ def s20_group(ctx):
         mode = rng.random()
         lst = names * s if mode < 0.4 else sorted(names * s) if mode < 0.5 else rng.sample(names * s, k * s)
         cases.append(lst)
-    resps = ctx.driver.parallel([f"group keys={';'.join(n.replace(' ', '_') for n in c)}" for c in cases])
+    resps = drv.parallel([f"group keys={';'.join(n.replace(' ', '_') for n in c)}" for c in cases])
     seen = set()
     for c, resp in zip(cases, resps):
         res.evaluations += 1
@@ -43,7 +44,7 @@ def s20_group(ctx):
         flat = sorted(i for v in got.values() for i in v)
         partition = flat == list(range(len(c))) and all(c[i] == k for k, v in got.items() for i in v)
         if got != model or not partition:
-            res.disagreements.append(Disagreement("S20-group", {"stream": "S20-group", "names": c}, model, got, not partition, "grouping is not the partition by name"))
+            res.disagreements.append(Disagreement(name, {"stream": name, "names": c}, model, got, not partition, "grouping is not the partition by name"))
     res.samples = [{"names": cases[0], "model": resps[0]}]
     return res
 
@@ -101,18 +102,19 @@ def agg_compare(ctx, cols, rows, resp):
     return bad, model, got
 
 
-def s20_aggregate(ctx):
-    res = StreamResult("S20-aggregate", rule="chosen-sample lists (1..5 rows, positive areas) with declared additive, declared mean and "
+def s20_aggregate(ctx, drv=None, name="S20-aggregate"):
+    drv = drv or ctx.driver
+    res = StreamResult(name, rule=("REGENERATED loops (Lean, compiled into gen_c20) instead of the hand model: " if name != "S20-aggregate" else "") + "chosen-sample lists (1..5 rows, positive areas) with declared additive, declared mean and "
                        "UNDECLARED numeric columns and text columns in random column order; ints and floats; non-trivial = an undeclared numeric "
                        "column follows an additive one, or an integer additive column")
-    rng = rng_for(ctx.seed, "S20a")
+    rng = rng_for(ctx.seed, "S20a" + name)
     cases = [(["Area", "Number of Traces", "Name"], [{"Area": 10.0, "Number of Traces": 3, "Name": "a"}, {"Area": 30.0, "Number of Traces": 5, "Name": "a"}])]
     for _ in range(budget(ctx.tier, 400, 10000)):
         cases.append(gen_rows(rng))
     reqs = []
     for cols, rows in cases:
         reqs.append("aggregate cols=" + ";".join(c.replace(" ", "_") for c in cols) + " rows=" + ";".join(",".join(enc_cell(r[c]) for c in cols) for r in rows))
-    resps = ctx.driver.parallel(reqs)
+    resps = drv.parallel(reqs)
     seen = set()
     for (cols, rows), req, resp in zip(cases, reqs, resps):
         res.evaluations += 1
@@ -125,10 +127,26 @@ def s20_aggregate(ctx):
         res.distribution["undeclared_after_additive"] = res.distribution.get("undeclared_after_additive", 0) + int(follows)
         res.distribution["int_additive"] = res.distribution.get("int_additive", 0) + int(int_add)
         if bad:
-            res.disagreements.append(Disagreement("S20-aggregate", {"stream": "S20-aggregate", "cols": cols, "rows": rows}, model, {k: got[k] for k in cols}, True,
+            res.disagreements.append(Disagreement(name, {"stream": name, "cols": cols, "rows": rows}, model, {k: got[k] for k in cols}, True if name == "S20-aggregate" else None,
                                                   f"aggregated value differs from sum / area-weighted mean / joined string: {bad}"))
     res.samples = [{"request": reqs[0], "model": resps[0]}]
     return res
+
+
+def s20_generated_group(ctx):
+    if ctx.gen is None:
+        r = StreamResult("S20-generated-group", note="gen_c20 not built (a generated module is broken): skipped")
+        r.skipped["generated_driver_not_built"] = 1
+        return r
+    return s20_group(ctx, ctx.gen, "S20-generated-group")
+
+
+def s20_generated_aggregate(ctx):
+    if ctx.gen is None:
+        r = StreamResult("S20-generated-aggregate", note="gen_c20 not built (a generated module is broken): skipped")
+        r.skipped["generated_driver_not_built"] = 1
+        return r
+    return s20_aggregate(ctx, ctx.gen, "S20-generated-aggregate")
 
 
 def s20_circles(ctx):
@@ -186,11 +204,17 @@ def s20_circles(ctx):
     return res
 
 
-STREAMS = [s20_group, s20_aggregate, s20_circles]
+STREAMS = [s20_group, s20_aggregate, s20_circles, s20_generated_group, s20_generated_aggregate]
 
 
 def replay(ctx, stream, case):
     import_fractopo()
+    if stream == "S20-generated-group":
+        r = s20_generated_group(ctx)
+        return r.disagreements[0] if r.disagreements else None
+    if stream == "S20-generated-aggregate":
+        r = s20_generated_aggregate(ctx)
+        return r.disagreements[0] if r.disagreements else None
     if stream == "S20-group":
         from fractopo.analysis.subsampling import group_gathered_subsamples
 
